@@ -21,6 +21,8 @@
 (*      the last configured funder with enough balance, fee grant from the *)
 (*      configured fee granter to the client).                             *)
 (*  SetFunders / SetFeegranter / SetSale   the governance proposal         *)
+(*      (SetSale REPLACES the complete per-chain list of sale contracts:   *)
+(*      later proposals retire contracts and change addresses)             *)
 (*      handlers (x/paloma/gov_handler.go, x/skyway/keeper/governance_     *)
 (*      proposals.go).                                                     *)
 (*  Gift(who, amt, via) coins sent to the module account from outside:     *)
@@ -71,8 +73,11 @@ vars  == <<svars, res, last, nops>>
 Bond == 1
 Addrs == Fresh \cup {HasAcct}         \* client addresses
 Signers == Users \cup Fresh
+\* sc: the complete sale-contract list of a SetSale proposal, as a tuple over the chains 1..NCh (0 = chain not listed)
 Rec(a, who, as, c, amt, m, ch, k, q, via, d) ==
-  [act |-> a, who |-> who, as |-> as, c |-> c, amt |-> amt, m |-> m, ch |-> ch, k |-> k, q |-> q, via |-> via, d |-> d]
+  [act |-> a, who |-> who, as |-> as, c |-> c, amt |-> amt, m |-> m, ch |-> ch, k |-> k, q |-> q, via |-> via, d |-> d, sc |-> <<>>]
+NCh == Cardinality(SaleChains)
+AsTuple(cfg) == [i \in 1..NCh |-> cfg[i]]
 Done(r, w) == res' = w /\ last' = r /\ nops' = nops + 1
 Ext(f, k, v) == [x \in DOMAIN f \cup {k} |-> IF x = k THEN v ELSE f[x]]
 Drop(f, k) == [x \in DOMAIN f \ {k} |-> f[x]]
@@ -170,9 +175,11 @@ SetFunders(fs) == /\ funders' = fs /\ UNCHANGED <<fundv, feegr, sale, now>>
                   /\ Done(Rec("SetFunders", IF Len(fs) >= 1 THEN fs[1] ELSE 0, IF Len(fs) >= 2 THEN fs[2] ELSE 0, 0, 0, 0, 0, 0, 0, "", 0), "ok")
 SetFeegranter == /\ feegr' = TRUE /\ UNCHANGED <<fundv, funders, sale, now>>
                  /\ Done(Rec("SetFeegranter", 0, 0, 0, 0, 0, 0, 0, 0, "", 0), "ok")
-\* the proposal replaces the whole list: contract k for chain ch only (k = 0: empty list)
-SetSale(ch, k) == /\ sale' = [x \in SaleChains |-> IF x = ch THEN k ELSE 0] /\ UNCHANGED <<fundv, funders, feegr, now>>
-                  /\ Done(Rec("SetSale", 0, 0, 0, 0, 0, ch, k, 0, "", 0), "ok")
+\* the proposal REPLACES the whole list by cfg: any subset of the chains, any address per chain (0 = not listed);
+\* contracts of an earlier list that are not in cfg are retired
+SaleCfgs == [SaleChains -> Contracts \cup {0}]
+SetSale(cfg) == /\ sale' = cfg /\ UNCHANGED <<fundv, funders, feegr, now>>
+                /\ Done([Rec("SetSale", 0, 0, 0, 0, 0, 0, 0, 0, "", 0) EXCEPT !.sc = AsTuple(cfg)], "ok")
 
 \* gifts are made in the bond denom
 GiftWhy(who, amt, via) == IF via = "tx" THEN "blocked" ELSE IF bal[who][Bond] < amt * Unit THEN "funds" ELSE "ok"
@@ -202,7 +209,7 @@ Next ==
   \/ \E ch \in SaleChains, k \in Contracts, c \in Addrs, amt \in Amounts : Sale(ch, k, c, amt)
   \/ \E fs \in FunderLists : SetFunders(fs)
   \/ SetFeegranter
-  \/ \E ch \in SaleChains, k \in Contracts \cup {0} : SetSale(ch, k)
+  \/ \E cfg \in SaleCfgs : SetSale(cfg)
   \/ \E who \in Users, amt \in Amounts \ {0}, via \in {"tx", "keeper"} : Gift(who, amt, via)
   \/ \E c \in Fresh, q \in 1..5 : Advance(c, q)
 
@@ -232,7 +239,9 @@ EscrowCovers == \A d \in Denoms : escrow[d] = SumLic(DOMAIN lic, d) + gifts[d] /
 \* a licence belongs to an address with a plain account that was made for it; activated addresses never hold one
 LicenceShape == \A c \in DOMAIN lic : acct[c] = "base" /\ c \notin DOMAIN vest /\ lic[c].amt > 0
 VestShape == \A c \in Fresh : (acct[c] = "vesting") = (c \in DOMAIN vest)
-LockedSane == \A c \in DOMAIN vest : /\ Locked(c, vest[c].start) = vest[c].orig /\ Locked(c, vest[c].end) = 0
+\* (a licence may have 0 vesting months: start = end, everything is locked at that instant and free afterwards)
+LockedSane == \A c \in DOMAIN vest : /\ Locked(c, vest[c].start) = vest[c].orig
+                                      /\ (vest[c].end > vest[c].start => Locked(c, vest[c].end) = 0) /\ Locked(c, vest[c].end + 1) = 0
                                       /\ Locked(c, now) >= 0 /\ Locked(c, now) <= vest[c].orig
 
 Ok == res' = "ok"
